@@ -776,6 +776,7 @@ def c05(tier, rng, fam='C05'):
             out.append(b.q().done())
     out += refused_write_then_calls(fam)
     out += paused_handler_backlog(fam)
+    out += random_programs(fam, 60 if tier == 'quick' else 1500, rng, maxcalls=6)
     # (d) a unary call given up at the very moment its reply has been handed to it (both branches of the
     # caller's select are ready: Go picks either): whatever that call reports, the NEXT calls get their own
     # replies - nothing of an abandoned call may survive into a later one
@@ -891,6 +892,7 @@ def c14(tier, rng, fam='C14'):
     out += unencodable_send(fam)
     out += lost_reset(fam, 3)
     out += ends_while_another_write_is_stuck(fam)
+    out += random_programs(fam, 60 if tier == 'quick' else 1500, rng)
     # a unary call given up (cancel / deadline) while its reply is still on its way - or never comes: nothing
     # stays registered for it, whether or not the reply turns up later
     for how in ('cancel', 'deadline'):
@@ -1551,8 +1553,16 @@ def random_programs(fam, count, rng, maxcalls=4):
             else:
                 n = 1
                 hp = [dict(o='recv')] + [dict(o='send', pay='h%d.%d' % (ci, i)) for i in range(m)] + [dict(o='drain'), ret(code=code, msg='s%d' % ci if code else '')]
-            p = [dict(op='sopen', c=ci, conn=conn, kind=kind, hp=hp)]
-            sends = [dict(op='send', c=ci, pay='c%d.%d' % (ci, i)) for i in range(n)]
+            rmd = None
+            if rng.random() < 0.35:                    # metadata: request, headers (set / sent), trailers
+                rmd = rnd_md(rng, rng.randrange(1, 4))
+                how = rng.choice(('sethdr', 'sendhdr'))
+                pre = [dict(o=how, md=rnd_md(rng, rng.randrange(1, 3)), **({'via': 'ctx'} if rng.random() < 0.3 else {}))]
+                if shape != 'echo':
+                    hp = ([hp[0]] + pre + hp[1:]) if hp and hp[0].get('o') in ('recv', 'drain') and rng.random() < 0.5 else (pre + hp)
+                    hp = hp[:-1] + [dict(o='settrl', md=rnd_md(rng, rng.randrange(1, 3)))] + hp[-1:]
+            p = [dict(op='sopen', c=ci, conn=conn, kind=kind, hp=hp, **({'md': rmd} if rmd else {}))]
+            sends = [dict(op='send', c=ci, pay=pay(rng, 'c%d.%d' % (ci, i), rng.choice((None, None, None, 1500, 70000)))) for i in range(n)]
             recvs = [dict(op='recv', c=ci) for _ in range(m + 1)]
             body = []
             if kind == 'bidi':
